@@ -521,7 +521,7 @@ func (c *compiler) compile(tok *token) []instruction {
 			types = append(types, t)
 		}
 		for _, arg := range tok.Tokens[funcArguments].Tokens {
-			c.Locals.Index(arg.Text)
+			c.Locals.Shadow(arg.Text) // a slot per parameter, also for repeated blank names
 		}
 		if arguments > 0 && tok.Tokens[funcArguments].Tokens[arguments-1].Tokens[0].Text == "..." {
 			arguments = -arguments
